@@ -87,4 +87,27 @@ def finalSeen : List Nat → List Item → List Nat
 /-- the renaming `canon` applies: an id ↦ the position of its first occurrence -/
 def firstIndex (d : List Item) (i : Nat) : Nat := indexIn i (finalSeen [] d)
 
+/-! ## (c) sorts and ordered containers under a user comparator
+
+`std::sort` / `std::stable_sort` / `list::sort` with a comparator and `std::set<T, Compare>` order their elements by the
+comparator alone.  A comparator that is a strict weak order on a layout-independent key is modelled by that key
+(`key : α → Nat`, e.g. the lexicographic rank of (file index, line, column)): `ins` is the insertion below the first element
+with a greater key, `isortBy` a stable sort, `osetOf` the ordered set (an element whose key is already present is dropped). -/
+
+def ins {α : Type} (key : α → Nat) (x : α) : List α → List α
+  | [] => [x]
+  | y :: t => if key x < key y then x :: y :: t else y :: ins key x t
+
+/-- stable sort by `key`: elements arrive in list order, equal keys keep their arrival order -/
+def isortBy {α : Type} (key : α → Nat) (l : List α) : List α := l.foldl (fun acc x => ins key x acc) []
+
+/-- `std::set<T, Compare>::insert`: equivalent (= equal key) to a present element ⇒ not inserted -/
+def osetInsert {α : Type} (key : α → Nat) (x : α) (s : List α) : List α :=
+  if s.any (fun y => key y == key x) then s else ins key x s
+
+def osetOf {α : Type} (key : α → Nat) (l : List α) : List α := l.foldl (fun acc x => osetInsert key x acc) []
+
+/-- a comparator that falls back to the address when the keys are equal: key first, then `addr` (< `m`) -/
+def withAddress {α : Type} (key addr : α → Nat) (m : Nat) (x : α) : Nat := key x * m + addr x
+
 end Cppcheck.Determinism
